@@ -1,3 +1,15 @@
+// Verification hook (off by default): under `--cfg bump_scope_verif` the pool's mutex is
+// `shuttle::sync::Mutex`, so a deterministic simulator decides the thread schedule.
+// This local module shadows the extern crate `std` for the `use std::{..}` below only.
+#[cfg(bump_scope_verif)]
+mod std {
+    pub use ::std::{alloc, mem, ops, vec};
+    pub mod sync {
+        pub use ::shuttle::sync::{Mutex, MutexGuard};
+        pub use ::std::sync::PoisonError;
+    }
+}
+
 use std::{
     alloc::Layout,
     mem::{self, ManuallyDrop},
